@@ -9,7 +9,7 @@ CONSTANTS
   CostBase = 10000
   Den = 21
   MaxSlots = 5
-  GenN = 400
+  GenN = 160
   SubOrder = "sorted"
   UnionMode = "any"
   Mode = "genunion"
